@@ -145,6 +145,11 @@ def run(model, col, tier):
               "`int2 + float2` compiles and then fails with an AssertionError", VM, cast.case)
     cei = model.cls(ASTF, "CastExpression").own_method("__init__")
     col.check(f"assert isinstance({cei.args.args[2].arg}, types.PrimitiveType)" in unparse(cei), "R05.4", f"{ASTF}::CastExpression target is primitive", "a cast target is a primitive type", None, ASTF, cei)
+    # the cast pass reaches every expression: an unconverted float that ends up as an index / an int parameter fails in the VM
+    from ..astcover import check_handler_coverage
+
+    check_handler_coverage(model, D, col, "R05.4", model.cls("nsl/passes/AddImplicitCasts.py", "AddImplicitCastVisitor"), "nsl/passes/AddImplicitCasts.py",
+                           "expressions below it never get their implicit conversions - `a[g(1.5)]` is accepted and indexes a list with 1.5 (TypeError in the VM)")
     # ---------------- R05.5 ------------------------------------------------------
     lv = model.cls(LOWER, "LowerToIRVisitor")
     built = set(built_classes(model, G, D))
